@@ -755,4 +755,176 @@ theorem proxyCallbacks_alarm {c : CryptoOps} {cfg : PoisonCfg} {kv : KeyView} {x
   · rw [List.mem_singleton.1 hf] at ha
     cases ha
 
+
+/-! ## poison records -/
+
+/-- what a successful `CreatePoisonRecord` / `CreateSymmetricPoisonRecord` has computed -/
+theorem createPoison_ok {c : CryptoOps} {pk : KeyView} {k : Kind} {n : Nat} {rnd P : Bytes}
+    (h : createPoison c pk k n rnd = .ok P) :
+    ∃ e, e ≠ [] ∧ P = serBytes e k.id ∧
+      match k with
+      | .struct => ∃ p, pk.pub = some p ∧ createStruct c p [] (rnd.take n) (rnd.drop n) = .ok e
+      | .block => ∃ key, pk.sym = some key ∧ createBlock c key [] (rnd.take n) (rnd.drop n) = .ok e := by
+  unfold createPoison at h
+  cases k with
+  | struct =>
+    simp only at h
+    cases hp : pk.pub with
+    | none => rw [hp] at h; cases h
+    | some p =>
+      rw [hp] at h
+      simp only at h
+      cases hc : createStruct c p [] (rnd.take n) (rnd.drop n) with
+      | err => rw [hc] at h; cases h
+      | panic => rw [hc] at h; cases h
+      | ok e =>
+        rw [hc] at h
+        obtain ⟨hne, hpe⟩ := c01_serialize_ok h
+        exact ⟨e, hne, hpe, p, rfl, hc⟩
+  | block =>
+    simp only at h
+    cases hp : pk.sym with
+    | none => rw [hp] at h; cases h
+    | some key =>
+      rw [hp] at h
+      simp only at h
+      cases hc : createBlock c key [] (rnd.take n) (rnd.drop n) with
+      | err => rw [hc] at h; cases h
+      | panic => rw [hc] at h; cases h
+      | ok e =>
+        rw [hc] at h
+        obtain ⟨hne, hpe⟩ := c01_serialize_ok h
+        exact ⟨e, hne, hpe, key, rfl, hc⟩
+
+/-- under the round-trip hypotheses of C01 (writer = the poison key the record was made with, reader
+= the poison key history of the detector) a poison record is a serialized container that the
+registry handler opens with the poison keys, whatever bytes follow it -/
+theorem createPoison_facts (c : CryptoOps) (k : Kind) (pkW pkR : KeyView) (n : Nat) (rnd P : Bytes)
+    (h : RoundTripHyps c k pkW pkR (rnd.take n) (rnd.drop n) P)
+    (hc : createPoison c pkW k n rnd = .ok P) :
+    ∃ e, P = serBytes e k.id ∧ e ≠ [] ∧ e.length + 12 < 2^63 ∧ ∀ suf, process c pkR (P ++ suf) = .ok (rnd.take n) := by
+  obtain ⟨e, he, rfl, hk⟩ := createPoison_ok hc
+  cases k with
+  | block =>
+    obtain ⟨key', hk', hcb⟩ := hk
+    obtain ⟨hs, key, pre, post, hkid, hW, hR, hpre, hek, hpl⟩ := h
+    have hkk : key = key' := Option.some.inj (hW.symm.trans hk')
+    subst hkk
+    rw [c01_serBytes_length] at hpl
+    obtain ⟨encData, encKey, h1, h2, rfl⟩ := c01_createBlock_ok hcb
+    have hx := c01_extractBlock_build (keyId c key []) encKey encData [] hkid (by omega)
+    rw [List.append_nil] at hx
+    have hd := c01_decryptBlock_build c hs key [] _ (rnd.take n) encKey encData _ _ pre post hkid (hek _ h2) h1 h2
+      (fun k' hk' hid => Or.inl (hpre k' hk' encKey h2 hid))
+    refine ⟨_, rfl, he, by omega, fun suf => ?_⟩
+    rw [c01_process_ser c pkR .block _ suf he (by omega) (by simp [matchKind, hx, Out.isOk])]
+    exact c01_decryptKind_block c pkR _ _ _ hx hR hd
+  | struct =>
+    obtain ⟨pub, hpub, hcs⟩ := hk
+    obtain ⟨hs, hsl, hm, hml, hkg, priv, pre, post, hpriv, hW, hR, hpre⟩ := h
+    have hpp : c.pubOf priv = pub := Option.some.inj (hW.symm.trans hpub)
+    subst hpp
+    obtain ⟨hval, _, hd, hlen, hmlen⟩ := c01_struct_roundtrip c hs hsl hm hml hkg priv [] (rnd.take n) (rnd.drop n) e hpriv hcs
+    refine ⟨e, rfl, he, by omega, fun suf => ?_⟩
+    rw [c01_process_ser c pkR .struct e suf he (by omega) (by simp [matchKind, hval])]
+    exact c01_decryptKind_struct c pkR e _ _ hval hR
+      (c01_decryptStructRotated_found c [] e priv _ pre post (fun k' hk' => hpre k' hk' e hcs) hd)
+
+/-- the alarm is raised at the head of a container the poison keys open, whatever callbacks come after
+the poison detector and whatever bytes follow the container, provided the callbacks before it leave
+the container alone -/
+theorem headAlarms_poison (c : CryptoOps) (cfg : PoisonCfg) (front rest : List CallbackT) (k : Kind) (e suf : Bytes)
+    (hcb : cfg.hasCallbacks = true) (he : e ≠ []) (hlen : e.length + 12 < 2^63)
+    (hfront : ∀ g ∈ front, (g (serBytes e k.id ++ suf)).1 = .same ∨ (g (serBytes e k.id ++ suf)).1 = .decErr)
+    (hpo : isPoison c cfg.pk (serBytes e k.id ++ suf) = true) :
+    1 ≤ headAlarms (front ++ poisonCallback c cfg :: rest) (serBytes e k.id ++ suf) := by
+  unfold headAlarms
+  rw [c01_startsWith_ser, c01_extractContainer_ser suf he (c01_kindOfId_id k) hlen]
+  simp only [Bool.not_true, Bool.false_eq_true, if_false]
+  apply runCallbacksT_alarm_ge _ front _ rest hfront
+  rw [poisonCallback_alarm, hcb, hpo]
+  rfl
+
+theorem runCallbacks_front_fatal (cont : Bytes) (front : List Callback) (f : Callback) (rest : List Callback)
+    (hfront : ∀ g ∈ front, g cont = .same ∨ g cont = .decErr) (hf : f cont = .fatal) :
+    runCallbacks cont (front ++ f :: rest) = .fatal := by
+  induction front with
+  | nil => simp [runCallbacks, hf]
+  | cons g gs ih =>
+    rw [List.cons_append, c01_runCallbacks_cons_same _ (hfront g List.mem_cons_self)]
+    exact ih (fun g' hg' => hfront g' (List.mem_cons_of_mem _ hg'))
+
+/-- … and when running the configured callbacks fails, the loop stops there with a fatal error -/
+theorem headStep_poison_fatal (c : CryptoOps) (cfg : PoisonCfg) (front rest : List Callback) (k : Kind) (e suf : Bytes)
+    (hcb : cfg.hasCallbacks = true) (herr : cfg.callbackErr = true) (he : e ≠ []) (hlen : e.length + 12 < 2^63)
+    (hfront : ∀ g ∈ front, g (serBytes e k.id ++ suf) = .same ∨ g (serBytes e k.id ++ suf) = .decErr)
+    (hpo : isPoison c cfg.pk (serBytes e k.id ++ suf) = true) :
+    headStep (front ++ outCb (poisonCallback c cfg) :: rest) (serBytes e k.id ++ suf) = .fatal := by
+  unfold headStep
+  rw [c01_startsWith_ser, c01_extractContainer_ser suf he (c01_kindOfId_id k) hlen]
+  simp only [Bool.not_true, Bool.false_eq_true, if_false]
+  rw [runCallbacks_front_fatal _ front _ rest hfront]
+  unfold outCb
+  rw [poisonCallback_out, hcb, herr, hpo]
+  rfl
+
+theorem serBytes_ne_nil (e : Bytes) (id : UInt8) : serBytes e id ≠ [] := by
+  intro h
+  have := congrArg List.length h
+  rw [c01_serBytes_length] at this
+  simp at this
+
+/-- **a container the poison keys open raises the alarm in the SQL proxies' column processor** when every
+position before it is skipped; with failing callbacks the result is fatal -/
+theorem proxyOnColumn_poison (c : CryptoOps) (cfg : PoisonCfg) (kv : KeyView) (k : Kind) (e pre suf : Bytes)
+    (hcb : cfg.hasCallbacks = true) (he : e ≠ []) (hlen : e.length + 12 < 2^63)
+    (hpo : isPoison c cfg.pk (serBytes e k.id ++ suf) = true)
+    (hpre : ∀ i, i < pre.length → ∃ hit,
+      headStep [fun _ => Cb.same, fun x => (poisonCallback c cfg x).1, decryptCallback c kv]
+        ((pre ++ serBytes e k.id ++ suf).drop i) = .skip hit) :
+    1 ≤ (proxyOnColumn c cfg kv (pre ++ serBytes e k.id ++ suf)).2 ∧
+    (cfg.callbackErr = true → (proxyOnColumn c cfg kv (pre ++ serBytes e k.id ++ suf)).1 = .fatal) := by
+  have hcbs : proxyCallbacks c cfg kv = [poisonCallback c cfg, plainT (decryptCallback c kv)] := by
+    unfold proxyCallbacks; rw [hcb]; rfl
+  have hout : outCbs (plainT (fun _ => Cb.same) :: proxyCallbacks c cfg kv) =
+      [fun _ => Cb.same, fun x => (poisonCallback c cfg x).1, decryptCallback c kv] := by rw [hcbs]; rfl
+  have hl : containerMin ≤ (pre ++ serBytes e k.id ++ suf).length := by
+    rw [List.length_append, List.length_append, c01_serBytes_length]
+    show 12 ≤ _
+    omega
+  have hfrontT : ∀ g ∈ [plainT (fun _ => Cb.same)],
+      (g (serBytes e k.id ++ suf)).1 = .same ∨ (g (serBytes e k.id ++ suf)).1 = .decErr := by
+    intro g hg; rw [List.mem_singleton.1 hg]; exact Or.inl rfl
+  unfold proxyOnColumn
+  constructor
+  · refine Nat.le_trans ?_ (onColumnCompatT_snd_ge _ _)
+    rw [onColumnT_snd_of_long _ _ (by simp) hl, List.append_assoc]
+    refine Nat.le_trans ?_ (scanT_alarm_ge _ pre (serBytes e k.id ++ suf) ?_ (by simp [serBytes_ne_nil]))
+    · rw [hcbs]
+      exact headAlarms_poison c cfg [plainT (fun _ => Cb.same)] _ k e suf hcb he hlen hfrontT hpo
+    · rw [hout, ← List.append_assoc]; exact hpre
+  · intro herr
+    have hout' : outCbs (proxyCallbacks c cfg kv) = [fun x => (poisonCallback c cfg x).1, decryptCallback c kv] := by
+      rw [hcbs]; rfl
+    rw [onColumnCompatT_fst, onColumnCompat_eq, hout', c01_onColumn_scan _ _ (by simp) hl, List.append_assoc,
+      scan_fatal_of_prefix_skip _ pre (serBytes e k.id ++ suf) (by rw [← List.append_assoc]; exact hpre)]
+    exact headStep_poison_fatal c cfg [fun _ => Cb.same] [decryptCallback c kv] k e suf hcb herr he hlen
+      (by intro g hg; rw [List.mem_singleton.1 hg]; exact Or.inl rfl) hpo
+
+/-- the same for AcraTranslator's poison scan (poison detector only) -/
+theorem translator_poison (c : CryptoOps) (cfg : PoisonCfg) (k : Kind) (e pre suf : Bytes)
+    (hcb : cfg.hasCallbacks = true) (he : e ≠ []) (hlen : e.length + 12 < 2^63)
+    (hpo : isPoison c cfg.pk (serBytes e k.id ++ suf) = true)
+    (hpre : ∀ i, i < pre.length → ∃ hit,
+      headStep [fun x => (poisonCallback c cfg x).1] ((pre ++ serBytes e k.id ++ suf).drop i) = .skip hit) :
+    1 ≤ (onColumnT [poisonCallback c cfg] (pre ++ serBytes e k.id ++ suf)).2 := by
+  have hl : containerMin ≤ (pre ++ serBytes e k.id ++ suf).length := by
+    rw [List.length_append, List.length_append, c01_serBytes_length]
+    show 12 ≤ _
+    omega
+  rw [onColumnT_snd_of_long _ _ (by simp) hl, List.append_assoc]
+  refine Nat.le_trans ?_ (scanT_alarm_ge _ pre (serBytes e k.id ++ suf) ?_ (by simp [serBytes_ne_nil]))
+  · exact headAlarms_poison c cfg [] [] k e suf hcb he hlen (by intro g hg; cases hg) hpo
+  · rw [← List.append_assoc]; exact hpre
+
 end AcraModel.Envelope
